@@ -450,3 +450,208 @@ def local_before_def(ctx, modules=None):
     ctx.ob('LOCAL-ORDER', True, None, '%d functions scanned' % n, key='scanned')
     ctx.floor('LOCAL-ORDER', n, 1, 'functions')
 
+
+
+# ------------------------------------------------------------------ GLOBAL-STATE
+_VIEW_CALLS = ('numpy.asarray', 'numpy.asanyarray', 'numpy.atleast_1d', 'numpy.atleast_2d',
+               'numpy.atleast_3d', 'numpy.ascontiguousarray', 'numpy.require', 'numpy.ravel',
+               'numpy.reshape', 'numpy.squeeze', 'numpy.transpose', 'numpy.asarray_chkfinite')
+
+
+def _alias_closure(f):
+    """names of f that may denote (a view of) an argument object: parameters, and locals bound
+    to a view expression of one (fixed point; no copy, arithmetic or constructor in between)"""
+    loc = f.local_names()
+    res = lambda e: f.module.resolve(e, loc) if isinstance(e, (ast.Name, ast.Attribute)) else None
+    params = [p for p in f.params + f.kwonly if p not in ('self', 'cls')]
+    al = {p: p for p in params}
+
+    def view_of(e):
+        if isinstance(e, ast.Name):
+            return al.get(e.id)
+        if isinstance(e, ast.Call) and res(e.func) in _VIEW_CALLS and e.args:
+            return view_of(e.args[0])
+        if isinstance(e, ast.Attribute) and e.attr in ('T', 'values', 'real', 'flat'):
+            return view_of(e.value)
+        if isinstance(e, ast.Call) and isinstance(e.func, ast.Attribute) and \
+                e.func.attr in ('view', 'reshape', 'ravel', 'squeeze', 'transpose', 'swapaxes',
+                                'to_numpy') and res(e.func) is None:
+            return view_of(e.func.value)
+        if isinstance(e, ast.Subscript):
+            return view_of(e.value)
+        return None
+    for _ in range(4):
+        for st in ast.walk(f.node):
+            if isinstance(st, ast.Assign) and len(st.targets) == 1 and \
+                    isinstance(st.targets[0], ast.Name):
+                v = view_of(st.value)
+                if v is not None and st.targets[0].id not in al:
+                    al[st.targets[0].id] = v
+    return al, view_of
+
+
+def global_state(ctx, modules=None):
+    """A function that re-binds a module-level name (`global X; X = ...`) carries state from one
+    call into the next.  When what it remembers is (a view of) an argument object - not a copy -
+    the memory changes under it when the caller later writes into that array: a comparison of
+    the new argument with the remembered one compares an object with itself, and the result
+    remembered for the old contents is handed out for the new ones (round-9 seeds C08 and C17:
+    one-entry caches keyed by the argument array).  The effect analysis (PUR-GLOBAL) sees writes
+    *into* module-level arrays; this rule sees the re-binding."""
+    ctx.rule('GLOBAL-STATE', 'no function keeps a reference to an argument object in module-level '
+             'state (`global X; X = <argument or a view of it>`): results would depend on what '
+             'the caller does to its own arrays between calls')
+    n = 0
+    for f in ctx.repo.all_functions():
+        short = f.module.name.split('.')[-1]
+        if modules and short not in modules:
+            continue
+        n += 1
+        gl = set()
+        for st in ast.walk(f.node):
+            if isinstance(st, (ast.Global, ast.Nonlocal)):
+                gl |= set(st.names)
+        if not gl:
+            continue
+        al, view_of = _alias_closure(f)
+        bad = False
+        for st in ast.walk(f.node):
+            if not isinstance(st, (ast.Assign, ast.AnnAssign)):
+                continue
+            tg = st.targets if isinstance(st, ast.Assign) else [st.target]
+            names_ = [t.id for t in tg if isinstance(t, ast.Name)]
+            if not (set(names_) & gl) or st.value is None:
+                continue
+            parts = st.value.elts if isinstance(st.value, (ast.Tuple, ast.List)) else [st.value]
+            kept = [(norm_text(e), view_of(e)) for e in parts if view_of(e) is not None]
+            for txt, par in kept:
+                bad = True
+                ctx.ob('GLOBAL-STATE', False, None, '%s keeps no argument in module state'
+                       % f.qualname, f=f, node=st, key='global-%s-%s' % (names_[0], par),
+                       why='%s stores `%s` - the caller\'s own `%s`, not a copy - in the '
+                           'module-level name `%s`: when the caller changes that array in place '
+                           'and calls again, the remembered object has changed with it (an '
+                           'equality test against it compares the array with itself) and what '
+                           'was remembered for the old contents is used for the new ones'
+                           % (f.qualname, txt, par, names_[0]))
+        if not bad:
+            ctx.ob('GLOBAL-STATE', True, None, '%s re-binds module state %s without keeping an '
+                   'argument object' % (f.qualname, sorted(gl)), f=f, key='global-' + f.qualname)
+    ctx.ob('GLOBAL-STATE', True, None, '%d functions examined for `global` re-bindings' % n,
+           key='summary')
+    if not ctx.cache.get('global-state-fixture'):
+        ctx.cache['global-state-fixture'] = True
+        src = ('_last = None\n'
+               'def memo(x, y):\n    global _last\n    x = np.asarray(x, dtype=float)\n'
+               '    _last = (x, y.copy())\n    return x\n')
+        fn = ast.parse(src).body[1]
+
+        class _M:
+            @staticmethod
+            def resolve(e, loc):
+                t = norm_text(e)
+                return t.replace('np.', 'numpy.', 1) if t.startswith('np.') else None
+
+        class _F:
+            node, module, params, kwonly = fn, _M, ['x', 'y'], []
+
+            @staticmethod
+            def local_names():
+                return {'x', 'y'}
+        al, view_of = _alias_closure(_F)
+        tup = [s_ for s_ in ast.walk(fn) if isinstance(s_, ast.Assign) and
+               isinstance(s_.value, ast.Tuple)][0].value.elts
+        if [view_of(e) for e in tup] != ['x', None]:
+            raise AssertionError('GLOBAL-STATE fixture not recognised')
+        ctx.ob('GLOBAL-STATE', True, None, 'positive fixture: a remembered asarray view is an '
+               'argument object, a remembered copy is not', key='fixture')
+
+
+# ------------------------------------------------------------------ TIME-RTOL
+def time_rtol(ctx, modules=None):
+    """np.isclose / np.allclose have a *relative* default tolerance (1e-5 * |b| + 1e-8).  Applied
+    to time stamps it grows with absolute time: at t = 4e5 s (GPS seconds of week, a long log)
+    stamps 4 s apart are "close".  A decision (branch, mask) taken on such a comparison treats
+    genuinely different epochs as equal for large time values and as different for small ones
+    (round-9 seed C18: resampling skipped for tables offset by half a sample; round-3 seed C06).
+    Judged: calls whose compared operands are read as time stamps (`<x>.index`, or a local bound
+    to one) and whose result feeds a test or a mask, without `rtol=0`."""
+    ctx.rule('TIME-RTOL', 'no branch or mask is decided by np.isclose / np.allclose on time stamps '
+             'with a relative tolerance (it scales with absolute time)')
+    n = 0
+    for f in ctx.repo.all_functions():
+        short = f.module.name.split('.')[-1]
+        if modules and short not in modules:
+            continue
+        loc = f.local_names()
+        res = lambda e: f.module.resolve(e, loc) if isinstance(e, (ast.Name, ast.Attribute)) \
+            else None
+        stamps = set()
+        for _ in range(3):
+            for st in ast.walk(f.node):
+                if isinstance(st, ast.Assign) and len(st.targets) == 1 and \
+                        isinstance(st.targets[0], ast.Name):
+                    if _is_stamp(st.value, stamps):
+                        stamps.add(st.targets[0].id)
+        tests = []
+        for x in ast.walk(f.node):
+            if isinstance(x, (ast.If, ast.While, ast.IfExp, ast.Assert)):
+                tests.append(x.test)
+            elif isinstance(x, ast.Subscript):
+                tests.append(x.slice)
+        tested_names = {y.id for t in tests for y in ast.walk(t) if isinstance(y, ast.Name)}
+        for call in ast.walk(f.node):
+            if not (isinstance(call, ast.Call) and res(call.func) in ('numpy.isclose',
+                                                                       'numpy.allclose')
+                    and len(call.args) >= 2):
+                continue
+            if not (_is_stamp(call.args[0], stamps) or _is_stamp(call.args[1], stamps)):
+                continue
+            # does the result decide something?
+            decides = any(call is y for t in tests for y in ast.walk(t))
+            if not decides:
+                for st in ast.walk(f.node):
+                    if isinstance(st, ast.Assign) and any(call is y for y in ast.walk(st.value)) \
+                            and any(isinstance(t, ast.Name) and t.id in tested_names
+                                    for t in st.targets):
+                        decides = True
+            if not decides:
+                continue
+            n += 1
+            rtol = None
+            if len(call.args) >= 3:
+                rtol = call.args[2]
+            for kw in call.keywords:
+                if kw.arg == 'rtol':
+                    rtol = kw.value
+            zero = False
+            if rtol is not None:
+                try:
+                    zero = ctx.repo.fold(rtol, f.module, f.cls) == 0
+                except (ValueError, TypeError):
+                    zero = False
+            ctx.ob('TIME-RTOL', zero, None, '%s: time stamps compared with rtol=0' % f.qualname,
+                   f=f, node=call, key='rtol-%s' % f.qualname,
+                   why='`%s` decides a branch / mask by comparing time stamps with the default '
+                       'relative tolerance (1e-5 * |t|): for large time values (t ~ 4e5 s: stamps '
+                       'seconds apart) different epochs are taken as equal' % norm_text(call)[:90])
+    ctx.ob('TIME-RTOL', True, None, '%d tolerance comparisons of time stamps decide a branch' % n,
+           key='summary')
+
+
+def _is_stamp(e, stamps):
+    if isinstance(e, ast.Name):
+        return e.id in stamps
+    if isinstance(e, ast.Attribute) and e.attr == 'index':
+        return True
+    if isinstance(e, ast.Attribute) and e.attr in ('values', 'T'):
+        return _is_stamp(e.value, stamps)
+    if isinstance(e, ast.Subscript):
+        return _is_stamp(e.value, stamps)
+    if isinstance(e, ast.Call) and e.args and norm_text(e.func) in (
+            'np.asarray', 'np.array', 'numpy.asarray', 'numpy.array', 'np.diff', 'np.ravel'):
+        return _is_stamp(e.args[0], stamps) and norm_text(e.func) not in ('np.diff',)
+    if isinstance(e, ast.Call) and isinstance(e.func, ast.Attribute) and \
+            e.func.attr in ('to_numpy', 'copy', 'astype'):
+        return _is_stamp(e.func.value, stamps)
+    return False
